@@ -279,6 +279,104 @@ def gen_languages():
     return "\n".join(out)
 
 
+def f64bits(x):
+    import struct
+    return str(struct.unpack("<Q", struct.pack("<d", float(x)))[0])
+
+
+def lean_opt(v, f=str):
+    return "none" if v is None else "some (%s)" % f(v)
+
+
+def gen_presets():
+    """src/config/presets.rs: every built-in preset as a `Gate.Cfg` (pattern-compiles bits are
+    assumed true here; the harness compiles the real patterns and runs `config validate`)"""
+    import tomllib
+    text = src("src/config/presets.rs")
+    names = re.findall(r'"([a-z0-9-]+)"\s*=>\s*(PRESET_[A-Z_]+)', text)
+    if not names:
+        die("no preset table found in src/config/presets.rs")
+    vtext = src("src/config/validation.rs")
+    m = re.search(r"VALID_REPORT_SECTIONS[^=]*=\s*&\[([^\]]*)\]", vtext)
+    m2 = re.search(r"VALID_BREAKDOWN_BY[^=]*=\s*&\[([^\]]*)\]", vtext)
+    if not m or not m2:
+        die("VALID_REPORT_SECTIONS / VALID_BREAKDOWN_BY not found in src/config/validation.rs")
+    sections = re.findall(r'"([^"]*)"', m.group(1))
+    breakdowns = re.findall(r'"([^"]*)"', m2.group(1))
+    mtext = src("src/config/model.rs")
+    md = re.search(r"fn default_warn_threshold\(\)\s*->\s*f64\s*\{\s*([0-9.]+)\s*\}", mtext)
+    if not md:
+        die("default_warn_threshold not found in src/config/model.rs")
+    default_thr = md.group(1)
+    default_max = int(const("src/config/model.rs", "DEFAULT_MAX_LINES", "nat"))
+    rows = []
+    for name, const_name in names:
+        mm = re.search(r"const\s+" + const_name + r'\s*:\s*&str\s*=\s*r#"(.*?)"#;', text, re.S)
+        if not mm:
+            die(f"preset constant {const_name} not found")
+        try:
+            t = tomllib.loads(mm.group(1))
+        except Exception as e:  # noqa
+            die(f"preset {name} is not valid TOML: {e}")
+        if t.get("version") not in (None, "2"):
+            die(f"preset {name} has version {t.get('version')}")
+        c = t.get("content", {})
+        st = t.get("structure", {})
+        rep = t.get("stats", {}).get("report", {})
+
+        def crule(r):
+            return ("{ patternOk := true, maxLines := %d, warnThreshold := %s, warnAt := %s, expires := %s }" % (
+                r["max_lines"], lean_opt(r.get("warn_threshold"), f64bits), lean_opt(r.get("warn_at")),
+                lean_opt(r.get("expires"), chars)))
+
+        def sib(x):
+            if "group" in x:
+                return ".group [%s]" % ", ".join(chars(p) for p in x["group"])
+            req = x.get("require", [])
+            req = [req] if isinstance(req, str) else req
+            return ".directed %s [%s]" % (str(x.get("match", "") == "").lower(), ", ".join(chars(p) for p in req))
+
+        def has(d, keys):
+            return str(any(d.get(k) for k in keys)).lower()
+
+        def srule(r):
+            return ("{ scopeOk := true, maxFiles := %s, maxDirs := %s, maxDepth := %s, warnThreshold := %s, "
+                    "warnFilesThreshold := %s, warnDirsThreshold := %s, warnFilesAt := %s, warnDirsAt := %s, "
+                    "hasAllow := %s, hasDeny := %s, patternsOk := true, expires := %s, siblings := [%s] }" % (
+                        lean_opt(r.get("max_files")), lean_opt(r.get("max_dirs")), lean_opt(r.get("max_depth")),
+                        lean_opt(r.get("warn_threshold"), f64bits), lean_opt(r.get("warn_files_threshold"), f64bits),
+                        lean_opt(r.get("warn_dirs_threshold"), f64bits), lean_opt(r.get("warn_files_at")),
+                        lean_opt(r.get("warn_dirs_at")),
+                        has(r, ["allow_files", "allow_dirs", "allow_extensions", "allow_patterns"]),
+                        has(r, ["deny_files", "deny_dirs", "deny_extensions", "deny_patterns"]),
+                        lean_opt(r.get("expires"), chars), ", ".join(sib(x) for x in r.get("siblings", []))))
+
+        cfg = ("{ warnThreshold := %s, maxLines := %d, warnAt := %s,\n      rules := [%s],\n"
+               "      scannerExcludeOk := true, contentExcludeOk := true, reportExcludeOk := %s, breakdownByOk := %s,\n"
+               "      trendSince := %s, sMaxFiles := %s, sMaxDirs := %s, sMaxDepth := %s,\n"
+               "      sWarnThreshold := %s, sWarnFilesThreshold := %s, sWarnDirsThreshold := %s,\n"
+               "      sWarnFilesAt := %s, sWarnDirsAt := %s, sHasAllow := %s, sHasDeny := %s, sPatternsOk := true,\n"
+               "      srules := [%s] }" % (
+                   f64bits(c.get("warn_threshold", default_thr)), c.get("max_lines", default_max), lean_opt(c.get("warn_at")),
+                   ",\n        ".join(crule(r) for r in c.get("rules", [])),
+                   str(all(x.lower() in sections for x in rep.get("exclude", []))).lower(),
+                   str(rep.get("breakdown_by") is None or rep["breakdown_by"].lower() in breakdowns).lower(),
+                   lean_opt(rep.get("trend_since"), chars),
+                   lean_opt(st.get("max_files")), lean_opt(st.get("max_dirs")), lean_opt(st.get("max_depth")),
+                   lean_opt(st.get("warn_threshold"), f64bits), lean_opt(st.get("warn_files_threshold"), f64bits),
+                   lean_opt(st.get("warn_dirs_threshold"), f64bits), lean_opt(st.get("warn_files_at")),
+                   lean_opt(st.get("warn_dirs_at")),
+                   has(st, ["allow_files", "allow_dirs", "allow_extensions"]),
+                   has(st, ["deny_files", "deny_dirs", "deny_extensions", "deny_patterns"]),
+                   ",\n        ".join(srule(r) for r in st.get("rules", []))))
+        rows.append("  (%s,\n    %s)" % (chars(name), cfg))
+    out = ["import SlocModel.Gate",
+           "/-! GENERATED by tools/extract.py from /repo/src/config/presets.rs — do not edit. -/",
+           "namespace SlocModel.Generated", "open SlocModel.Gate", "",
+           "def presets : List (List Char × Cfg) := [", ",\n".join(rows), "]", "", "end SlocModel.Generated", ""]
+    return "\n".join(out)
+
+
 def write_if_changed(path, content):
     try:
         if open(path, encoding="utf-8").read() == content:
@@ -296,6 +394,8 @@ def main():
     print(f"Generated/Consts.lean {'rewritten' if changed else 'unchanged'}")
     changed = write_if_changed(os.path.join(OUT, "Languages.lean"), gen_languages())
     print(f"Generated/Languages.lean {'rewritten' if changed else 'unchanged'}")
+    changed = write_if_changed(os.path.join(OUT, "Presets.lean"), gen_presets())
+    print(f"Generated/Presets.lean {'rewritten' if changed else 'unchanged'}")
 
 
 if __name__ == "__main__":
